@@ -34,6 +34,10 @@ def shards(tier):
     return 4 if tier == "quick" else 16
 
 
+# generous per-shard caps: expiry means INCONCLUSIVE, never a verdict (the box is shared and can be 10x slow)
+TIMEOUT = {"quick": 900, "thorough": 3000}
+
+
 ROOTS = ["/srv/sftp", "/", "/srv/sftp/", "/a"]
 
 
